@@ -1373,8 +1373,17 @@ class FortranFile:
             # Test for scope end
             if file_ast.end_scope_regex is not None:
                 match = FRegex.END_WORD.match(line_no_comment)
+                # A labelled END DO terminates the DO that was opened with its label
+                ends_labelled_do = (
+                    file_ast.current_scope.get_type() == DO_TYPE_ID
+                    and line_label is not None
+                    and len(block_id_stack) > 0
+                    and block_id_stack[-1] == line_label
+                )
                 # Handle end statement
                 if self.parse_end_scope_word(line_no_comment, line_no, file_ast, match):
+                    if ends_labelled_do:
+                        block_id_stack.pop()
                     continue
                 # Look for old-style end of DO loops with line labels
                 if self.parse_do_fixed_format(
